@@ -24,7 +24,13 @@ def errnos(tier):
     return list(range(1, 4096))
 
 
-SUCC = [0, 1, 2, 3, 4, 11, 16, 38, 133, 4095, 4096, 65535, 2147483647]
+def successes(tier):
+    """small non-error answers: every errno-sized value matters (dup3 compared with +16)"""
+    if tier == "quick":
+        return sorted(set(range(0, 134)) | set(range(512, 531)) | {4094, 4095, 4096, 65535, 2147483647})
+    return list(range(0, 4097)) + [65535, 2147483647]
+
+
 
 
 def to_int(raw):
@@ -76,7 +82,7 @@ def gen_plans(chk, tier, combos):
     cfg = os.path.join(chk.work, "SyscallGen_%s.cfg" % tier)
     with open(cfg, "w") as f:
         f.write("CONSTANTS\n  Errnos = {%s}\n  Succ = {%s}\n  Combos = {%s}\n" % (
-            ", ".join(map(str, errnos(tier))), ", ".join(map(str, SUCC)), ", ".join('"%s"' % c for c in sorted(combos))))
+            ", ".join(map(str, errnos(tier))), ", ".join(map(str, successes(tier))), ", ".join('"%s"' % c for c in sorted(combos))))
         f.write("INIT Init\nNEXT Next\nINVARIANTS Emit SelfCheck\nCHECK_DEADLOCK FALSE\n")
     res = core.run_tlc("SyscallGen.tla", cfg, workers=4, timeout=1200, xmx="4g")
     core.tlc_must_pass(res, "SyscallGen")
@@ -301,86 +307,107 @@ def run(tier):
     by_combo = {}
     for p in plans:
         by_combo.setdefault((p["kind"], p["retry"]), []).append(p)
-    items, meta = [], {}
-    i = 0
-    for w in wrappers:
-        for p in by_combo[(w["kind"], w["retry"])]:
-            ints = [to_int(r) for r in p["raws"]]
-            # a non-error answer for a wrapper that checks what the kernel wrote: run the real call
-            last_ok = not (-4095 <= ints[-1] <= -1)
-            mode = "p" if (w["pass"] and last_ok and len(ints) == 1) else "s"
-            if w["pass"] and last_ok and len(ints) > 1:
-                continue
-            items.append({"i": i, "w": w["w"], "raws": [str(x) for x in ints], "mode": mode})
-            meta[i] = (w, p)
-            i += 1
-    out = execute(chk, bindir, items, tier)
-    recs, keys = [], []
-    nr_drift = {}
-    for it in items:
-        o = out.get(it["i"])
-        w, p = meta[it["i"]]
-        if o is None:
-            raise core.ToolError("no outcome recorded for plan item %s" % it)
-        raws = [rep(int(x)) for x in o["forced"]] if o["forced"] else p["raws"]
-        recs.append({"w": w["w"], "kind": w["kind"], "retry": w["retry"], "raws": raws, "issues": o["issues"],
-                     "ended": o["ended"], "res": result_rec(o["res"])})
-        keys.append(it["i"])
-        if o["others"]:
-            nr_drift.setdefault(w["w"], set()).update(o["others"])
-    # anti-vacuity: corrupted copies of recorded invocations must be rejected by the judge
-    canaries = []
-    for rec in recs:
-        if len(canaries) >= 40:
-            break
-        if rec["ended"] != "returned" or rec["kind"] in ("void", "nofail", "noreturn"):
-            continue
-        c = json.loads(json.dumps(rec))
-        n = len(canaries) % 4
-        if n == 0:
-            c["issues"] += 1                      # one issue too many
-            c["raws"] = c["raws"] + [c["raws"][-1]]
-        elif n == 1 and c["res"]["tag"] == "err":
-            c["res"]["code"] = -c["res"]["code"]  # errno not negated
-        elif n == 2 and c["res"]["tag"] == "err":
-            c["res"] = {"tag": "unit"}            # error reported as success
-        elif n == 3 and c["res"]["tag"] in ("unit", "val"):
-            c["res"] = {"tag": "err", "code": 1}  # success reported as error
-        else:
-            continue
-        canaries.append(c)
-    verdict = judge(chk, recs + canaries, tier)
-    caught = {k - len(recs) for k in verdict if k >= len(recs)}
-    if len(caught) != len(canaries) or not canaries:
-        raise core.ToolError("SyscallJudge accepted %d of %d corrupted records (vacuous judge)" % (len(canaries) - len(caught), len(canaries)))
-    chk.traces -= len(canaries)
-    chk.extra["corrupted_records_rejected"] = len(canaries)
-    bad = {k for k in verdict if k < len(recs)}
-    chk.evaluations = len(recs)
     nontrivial = set()
-    disagreements = 0
-    for k, rec in enumerate(recs):
-        w, p = meta[keys[k]]
-        if any(r != ["pos", 0] for r in rec["raws"]):
-            nontrivial.add((rec["w"], json.dumps(p["raws"])))
-        vok = vector_ok(p, rec)
-        if vok != (k not in bad):
-            disagreements += 1
-            if disagreements <= 3:
-                core.log("judge/vector disagreement on", rec, "vector says", vok)
-        if k in bad:
-            last = rec["raws"][min(max(rec["issues"], 1), len(rec["raws"])) - 1]
-            sig = {"w": rec["w"], "class": raw_class(last, rec["retry"]), "outcome": outcome(rec, rec["retry"])}
-            chk.violate(sig, "%s: kernel answers %s -> %s after %d issue(s), result %s" % (
-                rec["w"], [to_int(r) for r in rec["raws"]], rec["ended"], rec["issues"], json.dumps(rec["res"])),
-                {"item": items[k], "record": rec})
-        if k % 1499 == 0:
-            chk.sample({"w": rec["w"], "forced": [to_int(r) for r in rec["raws"]], "issues": rec["issues"], "result": rec["res"]})
+    nr_drift = {}
+    state = {"disagreements": 0}
+
+    def campaign(bdir, by_combo, tag, build):
+        items, meta = [], {}
+        i = 0
+        for w in wrappers:
+            for p in by_combo[(w["kind"], w["retry"])]:
+                ints = [to_int(r) for r in p["raws"]]
+                # a non-error answer for a wrapper that checks what the kernel wrote: run the real call
+                last_ok = not (-4095 <= ints[-1] <= -1)
+                mode = "p" if (w["pass"] and last_ok and len(ints) == 1) else "s"
+                if w["pass"] and last_ok and len(ints) > 1:
+                    continue
+                items.append({"i": i, "w": w["w"], "raws": [str(x) for x in ints], "mode": mode})
+                meta[i] = (w, p)
+                i += 1
+        out = execute(chk, bdir, items, tag)
+        recs, keys = [], []
+        for it in items:
+            o = out.get(it["i"])
+            w, p = meta[it["i"]]
+            if o is None:
+                raise core.ToolError("no outcome recorded for plan item %s" % it)
+            raws = [rep(int(x)) for x in o["forced"]] if o["forced"] else p["raws"]
+            recs.append({"w": w["w"], "kind": w["kind"], "retry": w["retry"], "raws": raws, "issues": o["issues"],
+                         "ended": o["ended"], "res": result_rec(o["res"])})
+            keys.append(it["i"])
+            if o["others"]:
+                nr_drift.setdefault(w["w"], set()).update(o["others"])
+        # anti-vacuity: corrupted copies of recorded invocations must be rejected by the judge
+        canaries = []
+        for rec in recs:
+            if len(canaries) >= 40:
+                break
+            if rec["ended"] != "returned" or rec["kind"] in ("void", "nofail", "noreturn"):
+                continue
+            c = json.loads(json.dumps(rec))
+            n = len(canaries) % 4
+            if n == 0:
+                c["issues"] += 1                      # one issue too many
+                c["raws"] = c["raws"] + [c["raws"][-1]]
+            elif n == 1 and c["res"]["tag"] == "err":
+                c["res"]["code"] = -c["res"]["code"]  # errno not negated
+            elif n == 2 and c["res"]["tag"] == "err":
+                c["res"] = {"tag": "unit"}            # error reported as success
+            elif n == 3 and c["res"]["tag"] in ("unit", "val"):
+                c["res"] = {"tag": "err", "code": 1}  # success reported as error
+            else:
+                continue
+            canaries.append(c)
+        verdict = judge(chk, recs + canaries, tag)
+        caught = {k - len(recs) for k in verdict if k >= len(recs)}
+        if len(caught) != len(canaries) or not canaries:
+            raise core.ToolError("SyscallJudge accepted %d of %d corrupted records (vacuous judge)" % (len(canaries) - len(caught), len(canaries)))
+        chk.traces -= len(canaries)
+        chk.extra["corrupted_records_rejected"] = chk.extra.get("corrupted_records_rejected", 0) + len(canaries)
+        bad = {k for k in verdict if k < len(recs)}
+        chk.evaluations += len(recs)
+        for k, rec in enumerate(recs):
+            w, p = meta[keys[k]]
+            if any(r != ["pos", 0] for r in rec["raws"]):
+                nontrivial.add((rec["w"], json.dumps(p["raws"]), build))
+            vok = vector_ok(p, rec)
+            if vok != (k not in bad):
+                state["disagreements"] += 1
+                if state["disagreements"] <= 3:
+                    core.log("judge/vector disagreement on", rec, "vector says", vok)
+            if k in bad:
+                last = rec["raws"][min(max(rec["issues"], 1), len(rec["raws"])) - 1]
+                sig = {"w": rec["w"], "class": raw_class(last, rec["retry"]), "outcome": outcome(rec, rec["retry"])}
+                if build != "debug":
+                    sig["build"] = build
+                chk.violate(sig, "%s: kernel answers %s -> %s after %d issue(s), result %s" % (
+                    rec["w"], [to_int(r) for r in rec["raws"]], rec["ended"], rec["issues"], json.dumps(rec["res"])),
+                    {"item": items[k], "record": rec, "build": build})
+            if k % 1499 == 0:
+                chk.sample({"w": rec["w"], "forced": [to_int(r) for r in rec["raws"]], "issues": rec["issues"], "result": rec["res"]})
+        return recs
+
+    recs = campaign(bindir, by_combo, tier, "debug")
+    disagreements = state["disagreements"]
     single = {}
     for rec in recs:
         if len(rec["raws"]) == 1 and rec["ended"] == "returned":
             single[(rec["w"], to_int(rec["raws"][0]))] = rec
     strace_crosscheck(chk, bindir, wrappers, single, tier)
+    n_debug = len(recs)
+    n_release = 0
+    if tier != "quick":
+        # the same wrappers compiled with optimisation and without overflow checks (quick answer set)
+        rel = core.cargo_build(bins=["sysw"], release=True)
+        qplans = gen_plans(chk, "quick", combos)
+        qby = {}
+        for p in qplans:
+            qby.setdefault((p["kind"], p["retry"]), []).append(p)
+        n_release = len(campaign(rel, qby, "release", "release"))
+        disagreements = state["disagreements"]
+    chk.extra["invocations_debug_build"] = n_debug
+    chk.extra["invocations_release_build"] = n_release
     if disagreements:
         raise core.ToolError("%d records judged differently by SyscallJudge and by the SyscallGen vectors" % disagreements)
     chk.nontrivial = len(nontrivial)
@@ -389,7 +416,8 @@ def run(tier):
                 "successes, 10 boundary/large values, and for dup wrappers the same after one and two -EBUSY answers (%d plans); "
                 "each plan is forced by tools/sysinj into every rusl wrapper of that kind (%d wrappers, %d invocations), the issue "
                 "count and the decoded Result are judged by TLC (SyscallJudge.tla). non-trivial = distinct (wrapper, answers) with an "
-                "answer other than plain 0" % (len(errnos(tier)), len(SUCC), len(plans), len(wrappers), len(recs)))
+                "answer other than plain 0; thorough repeats the quick answer set on a release build"
+                % (len(errnos(tier)), len(successes(tier)), len(plans), len(wrappers), n_debug))
     chk.assumptions = [
         "results are forced at the system-call boundary by ptrace; the call itself is suppressed (executed for pipe/pipe2 successes)",
         "success values that the wrapper's result type cannot represent (e.g. 2^31 for an i32) may come back as any Ok value",
